@@ -98,6 +98,14 @@ func (t *Writer) Emit(e Ev) {
 	t.mu.Unlock()
 }
 
+// Raw appends already encoded lines (traces recorded by parallel scenarios into their own files).
+func (t *Writer) Raw(b []byte) {
+	t.mu.Lock()
+	defer t.mu.Unlock()
+	t.w.Write(b)
+	t.Lines += bytes.Count(b, []byte("\n"))
+}
+
 func (t *Writer) Close() error {
 	t.mu.Lock()
 	defer t.mu.Unlock()
